@@ -35,10 +35,10 @@ CLAIMS = {
                 "source-derived obligation re-checked on every run: the arity dispatch table extracted from src/basis_function/detail.rs passes params[t] to argument t for arities exactly 1..10 (c16_dispatch). "
                 "Tie: exact comparison of every entry of eval / eval_partial_deriv on position-sensitive integer probes, all arities 1..10, every ordered subset for small models, against the model AND against the by-name specification. TRAIT CONTRACT (Props/SepLawful.lean): whatever an accepted builder session returns, wrapped exactly like `impl SeparableNonlinearModel for SeparableModel`, is a Lawful model (sep_lawful) whose evaluation / derivative functions are the by-name specification (sep_evalF_spec); hence every end-to-end theorem about fits (C04, C06, C10, C11) holds for builder-made models without assumption (c04_e2e_builder).",
         "note": "Trusted: Lean kernel; Core/SepModel.lean + Core/ModelBuilder.lean transcriptions as validated by the exact probe stream; tools/extract_dispatch.py (regex extraction; if the source cannot be parsed the obligation is reported as skipped). "
-        "technique": "Lean 4 theorems about a hand-written executable model plus a dispatch table REGENERATED from src/basis_function/detail.rs on every run (translator tools/extract_dispatch.py), tied to /repo by an exact integer-probe correspondence check",
                 "End-to-end refinement (c16_refines_spec): for every accepted call sequence and every parameter vector of the model's length, eval = specEval and eval_partial_deriv(k) = specDeriv k "
                 "(the by-name specification, including error outcomes), the model holds the last x / initial parameters given; the wrapper closure's two panic sites are unreachable (c16_no_wrapper_panic). "
                 "Assumption stated in the theorem: the zero column has the requested length (DVector::zeros).",
+        "technique": "Lean 4 theorems about a hand-written executable model plus a dispatch table REGENERATED from src/basis_function/detail.rs on every run (translator tools/extract_dispatch.py), tied to /repo by an exact integer-probe correspondence check",
     },
     "C17": {
         "text": "Kernel-checked for EVERY model value, user-function semantics and argument: wrong parameter count is rejected with both lengths and leaves the model unchanged (c17_count, c17_rejected_state), "
